@@ -536,6 +536,8 @@ class HistogramND(HistogramBase):
             binnings=binnings,
             frequencies=frequencies,
             errors2=errors2,
+            missed=missing,
+            dtype=dtype,
             **kwargs,
         )
 
